@@ -54,6 +54,21 @@ def with_kwargs(fn):
     return fn
 
 
+class KeysView(tuple):
+    """dict.keys(): iterates in insertion order like the dict, compares and combines like a set."""
+
+    def __eq__(self, other):
+        if isinstance(other, (set, frozenset, KeysView)):
+            return set(self) == set(other)
+        return NotImplemented
+
+    def __ne__(self, other):
+        r = self.__eq__(other)
+        return r if r is NotImplemented else not r
+
+    __hash__ = tuple.__hash__
+
+
 class PyIter:
     """An iterator object created by iter(<list>) inside interpreted code."""
 
@@ -187,6 +202,11 @@ class PyEval(MiniEval):
         raise Unsupported(f"truthiness of {v!r}")
 
     def compare(self, op: ast.cmpop, a: Any, b: Any) -> bool:
+        if (isinstance(a, KeysView) or isinstance(b, KeysView)) and isinstance(op, (ast.Eq, ast.NotEq, ast.Lt, ast.LtE, ast.Gt, ast.GtE)) \
+                and isinstance(a, (KeysView, set, frozenset)) and isinstance(b, (KeysView, set, frozenset)):
+            a, b = set(a), set(b)
+            if isinstance(op, (ast.Lt, ast.LtE, ast.Gt, ast.GtE)):
+                return {ast.Lt: a < b, ast.LtE: a <= b, ast.Gt: a > b, ast.GtE: a >= b}[type(op)]
         if isinstance(a, Opaque) or isinstance(b, Opaque):
             raise Unsupported(f"comparison with {a!r} / {b!r}")
         if isinstance(op, ast.Is):
@@ -212,6 +232,9 @@ class PyEval(MiniEval):
         raise Unsupported(f"ordering of tokens {a!r}, {b!r}")
 
     def binop(self, op: ast.operator, a: Any, b: Any) -> Any:
+        if (isinstance(a, KeysView) or isinstance(b, KeysView)) and isinstance(op, (ast.BitOr, ast.BitAnd, ast.Sub, ast.BitXor)) \
+                and isinstance(a, (KeysView, set, frozenset)) and isinstance(b, (KeysView, set, frozenset)):
+            a, b = set(a), set(b)  # set algebra on key views gives sets
         if isinstance(op, ast.BitOr) and isinstance(b, Opaque) and (isinstance(a, Opaque) or (isinstance(a, tuple) and a and all(isinstance(x, Opaque) for x in a))):
             # `ClassA | ClassB` of repository classes (a union used in isinstance): a tuple of the class names
             return (a, b) if isinstance(a, Opaque) else (*a, b)
@@ -493,11 +516,17 @@ class PyEval(MiniEval):
                 continue
             if isinstance(st, ast.FunctionDef) and not st.decorator_list:
                 a = st.args
-                if a.vararg or a.kwarg or a.kwonlyargs or a.defaults:
-                    raise Unsupported("nested function with defaults / varargs")
+                if a.vararg or a.kwarg or a.kwonlyargs:
+                    raise Unsupported("nested function with varargs / keyword-only parameters")
                 params = [p.arg for p in a.posonlyargs + a.args]
+                dvals = [self.ev(d, env) for d in a.defaults]  # defaults are evaluated once, when the function is defined
 
-                def _fn(*vals, _params=params, _body=st.body, _env=env):
+                def _fn(*vals, _params=params, _body=st.body, _env=env, _dvals=dvals):
+                    if len(vals) < len(_params):
+                        missing = len(_params) - len(vals)
+                        if missing > len(_dvals):
+                            raise Raised("arity", "TypeError")
+                        vals = (*vals, *_dvals[len(_dvals) - missing:])
                     if len(vals) != len(_params):
                         raise Raised("arity", "TypeError")
                     r = self.run(_body, {**_env, **dict(zip(_params, vals))})
@@ -694,6 +723,31 @@ class PyEval(MiniEval):
         raise Unsupported(f"pattern {type(p).__name__}")
 
     # ---- calls
+    def lazy_items(self, g: ast.GeneratorExp, env: dict):
+        """Element values of a generator expression, produced one at a time (Python generator): nothing after the element the
+        consumer stops at is evaluated."""
+        def rec(i: int, env1: dict):
+            if i == len(g.generators):
+                yield self.ev(g.elt, env1)
+                return
+            comp = g.generators[i]
+            it = self.ev(comp.iter, env1)
+            if isinstance(it, dict):
+                it = list(it)
+            it = self.ordered(it)
+            if isinstance(it, PyIter):
+                it = it.items
+            if not isinstance(it, (list, tuple)):
+                raise Unsupported(f"comprehension over {it!r}")
+            for item in list(it):
+                env2 = dict(env1)
+                self.assign(comp.target, item, env2)
+                if all(self.truth(self.ev(c, env2)) for c in comp.ifs):
+                    yield from rec(i + 1, env2)
+        if any(c.is_async for c in g.generators):
+            raise Unsupported("async comprehension")
+        yield from rec(0, dict(env))
+
     def is_followed_call(self, v: ast.Call, env: dict) -> bool:
         """Does this call go into code the interpreter evaluates (hook, local function, repository function, method of a
         token's class, mutation of a concrete container)?"""
@@ -804,7 +858,7 @@ class PyEval(MiniEval):
                 getattr(recv, m)(A()[0])
                 return None
             if isinstance(recv, dict) and m in ("keys", "values", "items") and not node.args:
-                return {"keys": set(recv), "values": list(recv.values()), "items": list(recv.items())}[m]
+                return {"keys": KeysView(recv), "values": list(recv.values()), "items": list(recv.items())}[m]
             if isinstance(recv, dict) and m == "setdefault" and 1 <= len(node.args) <= 2 and not node.keywords:
                 return recv.setdefault(*A())
             if isinstance(recv, dict) and m == "popitem" and not node.args:
@@ -894,7 +948,28 @@ class PyEval(MiniEval):
             v = A()[0]
             if isinstance(v, (list, tuple, str, dict, set, frozenset)):
                 return len(v)
+            if isinstance(v, Tok):
+                for c in v.attrs.get("__classes__", ()):
+                    fm = c.find_method("__len__")
+                    if fm is not None:
+                        return self.call_dunder(fm, v, [], env)
             raise Unsupported(f"len of {v!r}")
+        if fn in ("any", "all") and len(node.args) == 1 and isinstance(node.args[0], ast.GeneratorExp) and not node.keywords:
+            # a generator argument is consumed LAZILY: any()/all() stop at the first deciding element, so the element
+            # expressions after it (and their side effects, e.g. `self.visit(arg)`) are never evaluated
+            for val in self.lazy_items(node.args[0], env):
+                t = self.truth(val)
+                if t and fn == "any":
+                    return True
+                if not t and fn == "all":
+                    return False
+            return fn == "all"
+        if fn == "next" and len(node.args) in (1, 2) and isinstance(node.args[0], ast.GeneratorExp) and not node.keywords and not (fn in env and callable(env[fn])):
+            for val in self.lazy_items(node.args[0], env):
+                return val
+            if len(node.args) == 2:
+                return self.ev(node.args[1], env)
+            raise Raised("StopIteration", "StopIteration")
         if fn in ("any", "all") and len(node.args) == 1:
             v = A()[0]
             if isinstance(v, list) and all(isinstance(x, bool) for x in v):
@@ -908,6 +983,8 @@ class PyEval(MiniEval):
                     raise Raised("zip() argument lengths differ", "ValueError")
                 return [tuple(t) for t in zip(*seqs)]
             raise Unsupported("zip of non-sequences")
+        if fn == "enumerate" and 1 <= len(node.args) <= 2 and isinstance(A()[0], dict):
+            args = [list(A()[0]), *A()[1:]]  # a dict enumerates its keys, in insertion order
         if fn == "enumerate" and 1 <= len(node.args) <= 2 and isinstance(A()[0], (list, tuple)):
             start = A()[1] if len(node.args) == 2 else 0
             for k in node.keywords:
